@@ -30,11 +30,17 @@ Fixpoint rmap {A B} (f : A -> res B) (l : list A) : res (list B) :=
   end.
 
 (* fixed_Dnn switches: false = the code as it is in /repo today *)
-(* (all true now: the repairs of fixes/C16/*.diff are in /repo) *)
+(* (all true now: the repairs of fixes/C16/*.diff are in /repo; C16c / C16f / C16k are PENDING: fixes/C16/C16-{c,f,k}.diff) *)
 Definition fixed_D20 : bool := true.      (* false: NonTensorStack.to_dict passes an unexpected keyword to tolist and raises *)
 Definition fixed_C16a : bool := true.     (* false: NonTensorStack.data on nested stacks answers with the first member's value *)
 Definition fixed_C16d : bool := true.     (* false: torch.cat keeps the first operand's payload / raises for stacks *)
 Definition fixed_C16n : bool := true.     (* false: utils._set_item does not call maybe_to_stack on a stack destination *)
+Definition fixed_C16c : bool := true.     (* false: torch.cat of the entries themselves (NonTensorData.__torch_function__) keeps the first
+                                             operand's payload, raises TypeError when a stack is among them (PENDING-C16-c) *)
+Definition fixed_C16f : bool := true.     (* false: member[None, None, ...] = value on a member without batch dims drops the write unless
+                                             the index is one single None (PENDING-C16-f) *)
+Definition fixed_C16k : bool := true.     (* false: NonTensorStack._update rebuilds a NonTensorData source as a fully nested stack, which a
+                                             NonTensorData member with batch dims refuses (PENDING-C16-k) *)
 Definition fixed_D23 : bool := true.      (* lazy[int_tensor] = value: the members are updated in place (fix bc087c4 in /repo);
                                              false = the member objects are replaced by the value's pieces *)
 
@@ -381,16 +387,19 @@ Fixpoint index (x : nt) (idx : list item) {struct x} : res nt :=
                   if negb (Nat.eqb (length vals) (prod tsh)) then Raised
                   else rbind (norm_all vals n) (fun js => rbind (all_nth ys js) (fun ms => nest_stack nd tsh ms))
               | Some (IMask msh bits) =>
-                  (* only the plain case: the index is this one 1-d mask and the members are NonTensorData *)
-                  match msh, s_pre s, post with
-                  | [k], [], [] =>
-                      if Nat.eqb k n && Nat.eqb (length bits) n && forallb is_shared l
+                  (* a 1-d mask on the stack dim, anywhere among ints / slices / None: every selected member is indexed with
+                     (pre, 0-dim True, post) and the unit dim is squeezed again, i.e. indexed with pre ++ post; the result is
+                     the lazy stack of the selected ones at cat_dim = mask_loc - num_single.  Nothing selected: an empty
+                     lazy stack (not representable here); masks of rank >= 2 go through torch.cat of pieces: not modelled *)
+                  match msh with
+                  | [k] =>
+                      if Nat.eqb k n && Nat.eqb (length bits) n
                       then match true_pos bits with
                            | [] => OutOfModel
-                           | sel => rbind (all_nth l sel) (fun ms => Ok (Stack 0 ms))
+                           | sel => rbind (all_nth ys sel) (fun ms => Ok (Stack nd ms))
                            end
                       else OutOfModel
-                  | _, _, _ => OutOfModel
+                  | _ => OutOfModel
                   end
               | Some INone => OutOfModel
               end)
@@ -400,7 +409,9 @@ Fixpoint index (x : nt) (idx : list item) {struct x} : res nt :=
 
 (* ---------------- writes *)
 (* NonTensorData._update / NonTensorStack._update (inplace): the destination keeps its structure *)
-Fixpoint update_in (dst src : nt) {struct dst} : res nt :=
+(* [fx] = the repair of C16-k: a NonTensorData source is handed to every member as it is; without it the source is rebuilt as
+   a full stack first and its pieces along the stack dim go to the members (a member with batch dims then refuses its piece) *)
+Fixpoint update_in_f (fx : bool) (dst src : nt) {struct dst} : res nt :=
   match dst with
   | Shared _ sh =>
       match src with
@@ -408,7 +419,15 @@ Fixpoint update_in (dst src : nt) {struct dst} : res nt :=
       | Stack _ _ => Raised                 (* "Cannot update a NonTensorData object with a NonTensorStack" *)
       end
   | Stack d l =>
-      (* a NonTensorData source is rebuilt as a full stack first; then members <- source.unbind(stack_dim), zip strict *)
+      match src, fx with
+      | Shared _ _, true =>
+          rbind ((fix mp (l : list nt) : res (list nt) :=
+                    match l with
+                    | [] => Ok []
+                    | m :: r => rbind (update_in_f fx m src) (fun y => rbind (mp r) (fun ys => Ok (y :: ys)))
+                    end) l) (fun ys => Ok (Stack d ys))
+      | _, _ =>
+      (* members <- source.unbind(stack_dim), zip strict *)
       rbind (match src with
              | Shared q _ => match shape dst with Some s => expand_shared q s | None => Raised end
              | Stack _ _ => Ok src
@@ -418,10 +437,12 @@ Fixpoint update_in (dst src : nt) {struct dst} : res nt :=
       rbind ((fix mp (l : list nt) (ps : list nt) : res (list nt) :=
                 match l, ps with
                 | [], _ => Ok []
-                | m :: r, q :: ps' => rbind (update_in m q) (fun y => rbind (mp r ps') (fun ys => Ok (y :: ys)))
+                | m :: r, q :: ps' => rbind (update_in_f fx m q) (fun y => rbind (mp r ps') (fun ys => Ok (y :: ys)))
                 | _ :: _, [] => Raised
                 end) l pieces) (fun ys => Ok (Stack d ys))))
+      end
   end.
+Definition update_in : nt -> nt -> res nt := update_in_f fixed_C16k.
 
 Fixpoint find_piece {A} (j : nat) (js : list nat) (pieces : list A) : option A :=
   match js, pieces with
@@ -448,13 +469,33 @@ Definition write_all_f (w : nt -> nt -> res nt) (js : list nat) (pieces : list n
               (fun y => rbind (wa r (S j)) (fun ys => Ok (y :: ys)))
     end.
 
+(* tensorclass._setitem on a member WITHOUT batch dims with an index made of None only (what the lazy __setitem__ hands to the
+   leaves when Nones are in the index): the value, which has one unit dim per None, is squeezed and taken whole.
+   [fx] = the repair of C16-f; without it only the index `None` alone (one item) is treated so, with two or more Nones the
+   tensordict part (empty) is written and the data is left as it was.  Members with batch dims / other items: not modelled. *)
+Definition is_none (it : item) : bool := match it with INone => true | _ => false end.
+Fixpoint squeeze_all (v : nt) : res nt :=
+  match v with
+  | Shared q _ => Ok (Shared q [])
+  | Stack _ [m] => squeeze_all m
+  | Stack _ _ => OutOfModel
+  end.
+Definition leaf_newaxis_write (fx : bool) (x : nt) (sh : list nat) (idx : list item) (v : nt) : res nt :=
+  match sh with
+  | [] =>
+      if forallb is_none idx
+      then (if fx || Nat.eqb (length idx) 1 then rbind (squeeze_all v) (fun v' => update_in x v') else Ok x)
+      else OutOfModel
+  | _ => OutOfModel
+  end.
+
 (* LazyStackedTensorDict.__setitem__ on a non-tensor stack (the value already has the indexed batch size) *)
 Fixpoint assign (x : nt) (idx : list item) (v : nt) {struct x} : res nt :=
   match x with
-  | Shared _ _ =>
+  | Shared _ sh =>
       match idx with
       | [] => update_in x v
-      | _ => OutOfModel                                         (* tensorclass __setitem__ on a leaf *)
+      | _ => leaf_newaxis_write fixed_C16f x sh idx v          (* tensorclass __setitem__ on a leaf *)
       end
   | Stack d l =>
       match idx with
@@ -585,3 +626,13 @@ Definition cat_nt (l : list nt) (dim : nat) : res nt :=
     if same_shared l then cat_shared l dim
     else rbind (rmap (unbind dim) l) (fun pss => match concat pss with [] => Raised | ps => Ok (Stack dim ps) end)
   else cat_shared l dim.
+
+(* torch.cat called on the entries themselves (NonTensorData.__torch_function__; the lazy mask path of __getitem__ does this
+   with the members' pieces): after the repair of C16-c the same rule as cat_nt; before, the first operand's payload for
+   NonTensorData operands and TypeError when a stack is among them *)
+Definition cat_entries_f (fx : bool) (l : list nt) (dim : nat) : res nt :=
+  if fx then
+    if same_shared l then cat_shared l dim
+    else rbind (rmap (unbind dim) l) (fun pss => match concat pss with [] => Raised | ps => Ok (Stack dim ps) end)
+  else if forallb is_shared l then cat_shared l dim else Raised.
+Definition cat_entries : list nt -> nat -> res nt := cat_entries_f fixed_C16c.
